@@ -776,13 +776,13 @@ theorem round_trip (O : Oracles) (opts : DeserOpts) : ∀ (f : FieldDecl) (v : P
         cases hk : kv.1 <;> simp [hk] at this
         exact ⟨_, rfl⟩
       have hpt : ∀ kv ∈ kvs, (∃ k, kv.1 = .str k) ∧ aString O lo hi pat kv.1 = true
-          ∧ RT O { opts with keepUndefined := true } vf kv.2 := by
+          ∧ RT O opts vf kv.2 := by
         intro kv hkv
         have hck := (List.all_eq_true.mp hc.2) kv hkv
         simp only [and_true_iff, conforms] at hck
         exact ⟨hkeys kv hkv, hck.1,
-          round_trip O { opts with keepUndefined := true } vf kv.2 hck.2 ((List.all_eq_true.mp hall) kv hkv)⟩
-      rcases RT_pairs O { opts with keepUndefined := true } lo hi pat vf kvs hpt with ⟨r, g1, g2, g3, g4, g5⟩
+          round_trip O opts vf kv.2 hck.2 ((List.all_eq_true.mp hall) kv hkv)⟩
+      rcases RT_pairs O opts lo hi pat vf kvs hpt with ⟨r, g1, g2, g3, g4, g5⟩
       have hrd : strKeysDistinct r = true := by rw [strKeysDistinct_keys r kvs g3]; exact hdist
       refine ⟨.dict r, ?_, by simp [isJson, g2], rfl, ?_, ?_⟩
       · simp only [ser] at g1
